@@ -378,6 +378,10 @@ def corruptions(data):
             d = copy.deepcopy(data)
             get_path(d, path)['name'] = 'gvmon.colliding_components:' + spec['name']
             out.append(('colliding_module@' + '/'.join(map(str, path)), d))
+            # a module that does not exist: the name is unknown - a value error, like any other unknown name
+            d = copy.deepcopy(data)
+            get_path(d, path)['name'] = 'no_such_module_xyz:' + spec['name']
+            out.append(('unknown_module@' + '/'.join(map(str, path)), d))
         required = required_params(kind, spec['name'])
         for rp in required:
             if rp in spec:
